@@ -30,6 +30,11 @@ def _gen_file(rng, wellformed):
     eol = rng.choice(["\n", "\n", "\r\n", "\r\r\n"])
     mixed = rng.chance(1, 6)
     lines = ["MODULE Linux x86_64 BE4E976C325246EE9D6B7847A670B2A90 example-linux"]
+    if rng.chance(1, 5):
+        # the MODULE record is stored verbatim in the index and read back by parse_symindex_file: empty and blank names, trailing blanks, odd ids
+        lines[0] = rng.choice(["MODULE Linux x86_64 BE4E976C325246EE9D6B7847A670B2A90 ", "MODULE Linux x86_64 BE4E976C325246EE9D6B7847A670B2A90  ",
+                               "MODULE Linux x86_64 BE4E976C325246EE9D6B7847A670B2A90 \t", "MODULE Linux x86_64 BE4E976C325246EE9D6B7847A670B2A90 example linux ",
+                               "MODULE windows x86 be4e976c325246ee9d6b7847a670b2a9abcdef12 a.pdb", "MODULE Linux x86_64 BE4E976C325246EE9D6B7847A670B2A90 example-linux\t"])
     nfiles = rng.range(0, 5)
     norig = rng.range(0, 4)
     pre = []
@@ -205,7 +210,14 @@ def evaluate(cases):
     if rc != 0 or len(outl) != len(cases):
         raise K.TieBroken("h_symbols bp failed (rc=%s, %d/%d lines): %s" % (rc, len(outl), len(cases), err[-500:]))
     terms = []
-    for c, l in zip(cases, outl):
+    panicked = set()
+    for ci, (c, l) in enumerate(zip(cases, outl)):
+        if l.strip() == "PANIC":
+            # samply-symbols panicked on this file (index creation, parse back, or a lookup): no index data, no answers
+            panicked.add(ci)
+            c["_out"] = "samply-symbols panicked on this .sym file"
+            l = "IDX=ERR EQ=1 RT=1 LKEQ=1 | "
+            outl[ci] = l
         head, _, rest = l.partition(" | ")
         kv = dict(x.split("=", 1) for x in head.split())
         idx = kv["IDX"]
@@ -226,6 +238,8 @@ def evaluate(cases):
     flat = [v for r in res for v in r]
     if len(flat) != len(cases):
         raise K.TieBroken("verdict count mismatch %d vs %d" % (len(flat), len(cases)))
+    for ci in panicked:
+        flat[ci] = flat[ci] - flat[ci] % 10 + 2
     # second stream: mutated copies of the index bytes through parse_symindex_file, against the model of the parser
     muts = _idx_mutations(cases, outl)
     if muts:
@@ -306,7 +320,10 @@ def known(case):
 
 
 def describe(case):
-    return {"sym_text": case["text"][:600], "bytes": len(case["text"]), "lookup_addresses": case["items"][:20]}
+    d = {"sym_text": case["text"][:600], "bytes": len(case["text"]), "lookup_addresses": case["items"][:20]}
+    if "_out" in case:
+        d["error"] = case["_out"]
+    return d
 
 
 def distribution(cases):
